@@ -182,4 +182,37 @@ META = {
         "technique": "enumerated failure-kind x context x position matrix with intent-before-signal logging; oracle intent => TB failed",
         "max_inconclusive": 0.05,
     },
+    "C06": {
+        "level": "exploration",
+        "evaluations": ["histories"],
+        "required": ["histories", "run2:auto", "run2:flag", "comment_lines"],
+        "show": ["histories", "run2:auto", "run2:flag", "comment_lines", "max:fail_file_bytes"],
+        "rule": "two/three-run histories in a scratch working directory: run 1 fails with fail files on (24 hostile test names: unicode, path "
+                "separators, '..', glob metacharacters, invalid UTF-8, NUL, Windows reserved names, up to 180 bytes; 11 output classes: none, text, "
+                "binary, NUL, CR/LF mixes, '#'-lines imitating fail-file syntax, empty lines, single lines of 65532/65536/1Mi bytes, a 6000-element "
+                "slice draw line; bitstreams from empty to thousands of words); oracle: exactly one file under the documented name (harness's own "
+                "sanitiser), no temp left, file words = reported bitstream; run 2 (no flag) and run 3 (other cwd, -rapid.failfile, original or moved "
+                "file) must replay it first, draw the same values and fail 'after 0 tests' with the same message; "
+                "non-trivial+distinct = distinct (sanitised name, output class, threshold) histories whose run 1 failed",
+        "assumptions": COMMON_ASSUME,
+        "level_text": "Runtime monitor over fail -> rerun histories through the real Check and the real file system.",
+        "technique": "two-run history monitor over files on disk + invocation logs; independent parser and name sanitiser as reference",
+        "max_inconclusive": 0.1,
+    },
+    "C17": {
+        "level": "exploration",
+        "evaluations": ["directories"],
+        "required": ["directories", "files_planted", "ignore_log_lines", "kind:truncated", "kind:bitflip", "kind:now-passes", "kind:overrun", "kind:directory", "kind:other-version"],
+        "show": ["directories", "files_planted", "ignore_log_lines", "mutated_file_still_usable"],
+        "rule": "1-6 unusable files of 20 kinds (empty, random bytes, directory, dangling symlink, other version, missing/extra '#', bad/huge seed, "
+                "bad/huge/negative/one-character word, truncations and bit flips of a genuine file, genuine file whose case now passes / overruns / is "
+                "skipped, comments only, whitespace) planted in the test's fail-file directory; oracle against the same Check with the same seed in an "
+                "empty directory: identical random invocations, verdict, message, seed; no crash; one ignore/no-longer log line per file; a mutated "
+                "file that still parses and still falsifies is a usable fail file and is then judged by the C01 oracle; "
+                "non-trivial+distinct = distinct (planted kinds, property fails?) directories",
+        "assumptions": COMMON_ASSUME,
+        "level_text": "Runtime differential monitor (directory with unusable files vs empty directory) through the real Check.",
+        "technique": "differential two-run monitor (planted corpus vs empty directory), file-corpus mutation, log-line conservation",
+        "max_inconclusive": 0.1,
+    },
 }
